@@ -93,6 +93,43 @@ def float_range_grid():
     return None, n
 
 
+def _inherited_defaults():
+    """two sessions in one process: a strategy with declared defaults, then a subclass that declares other defaults - the subclass
+    must see its own"""
+    import numpy as np
+    from jesse.strategies import Strategy
+    from jesse import research
+    seen = {}
+
+    class Parent(Strategy):
+        def hyperparameters(self):
+            return [{'name': 'period', 'type': int, 'min': 5, 'max': 60, 'default': 14}, {'name': 'mult', 'type': float, 'min': 1, 'max': 5, 'default': 2.0}]
+
+        def should_long(self):
+            seen[type(self).__name__] = None if self.hp is None else dict(self.hp)
+            return False
+
+        def should_short(self): return False
+        def should_cancel_entry(self): return False
+        def go_long(self): pass
+        def go_short(self): pass
+
+    class Child(Parent):
+        def hyperparameters(self):
+            return [{'name': 'period', 'type': int, 'min': 5, 'max': 60, 'default': 50}, {'name': 'mult', 'type': float, 'min': 1, 'max': 5, 'default': 3.5}]
+
+    ts0 = 1609459200000
+    c = np.array([[ts0 + i * 60000, 100, 100, 101, 99, 10] for i in range(30)], dtype=float)
+    cfg = {'starting_balance': 10000, 'fee': 0, 'type': 'futures', 'futures_leverage': 2, 'futures_leverage_mode': 'cross',
+           'exchange': 'Sandbox', 'warm_up_candles': 0}
+    for S in (Parent, Child):
+        research.backtest(cfg, [{'exchange': 'Sandbox', 'strategy': S, 'symbol': 'BTC-USDT', 'timeframe': '1m'}], [],
+                          {'Sandbox-BTC-USDT': {'exchange': 'Sandbox', 'symbol': 'BTC-USDT', 'candles': c.copy()}})
+    if seen.get('Child') != {'period': 50, 'mult': 3.5} or seen.get('Parent') != {'period': 14, 'mult': 2.0}:
+        return f'declared defaults: parent strategy sees {seen.get("Parent")}, its subclass (defaults 50 / 3.5) sees {seen.get("Child")}'
+    return None
+
+
 def replay(pl):
     if pl['obligation'].startswith('float-grid'):
         d, n = float_range_grid()
@@ -156,6 +193,9 @@ def replay(pl):
         ok = sorted(ord(c) for c in cs) == list(range(K.FIRST, K.LAST + 1))
         return {'confirmed': not ok, 'detail': f'charset default {cs!r}'}
     if ob.startswith('precedence'):
+        d = _inherited_defaults()
+        if d:
+            return {'confirmed': True, 'detail': d}
         # defaults at the ends of the range and equal to zero are legal declarations
         for decl0 in ([{'name': 'a', 'type': float, 'min': -1.0, 'max': 1.0, 'default': 0.0}, {'name': 'b', 'type': int, 'min': -10, 'max': 10, 'default': 0}],
                       [{'name': 'a', 'type': float, 'min': 0.5, 'max': 4.0, 'default': 0.5}, {'name': 'b', 'type': int, 'min': 2, 'max': 60, 'default': 60}]):
